@@ -134,3 +134,15 @@ def t_propagate(world):
 _t14e = tasks
 def tasks(tier):
     return _t14e(tier) + [('propagate', t_propagate)]
+
+
+
+# ---------------------------------------------------------------- C14.f: reduce-only banks' deposits count for nothing towards NEW borrowing (shared with C04.a: the per-position valuation)
+def t_reduce_only_valuation(world):
+    import specs.C04 as C04
+    return C04.t_asset_value(world, 'C14.f.asset')
+
+
+_t_rov = tasks
+def tasks(tier):
+    return _t_rov(tier) + [('reduce_only_valuation', t_reduce_only_valuation)]
